@@ -116,6 +116,7 @@ func SpecStream(i int) byte { panic("abstract spec function") }
 //@   requires nonnil: d != nil && d.r != nil
 //@   modifies d.offset, pos
 //@   ensures offset: result1 == nil ==> d.offset - old(d.offset) == pos - old(pos)
+//@   ensures no_rewind: result1 == nil ==> pos >= old(pos)
 //@   ensures consumed: result1 == nil && result0 != nil ==> pos >= old(pos) + len(result0) + 2
 //@   ensures lossless: result1 == nil && result0 != nil ==> (forall j int :: 0 <= j && j < len(result0) ==> result0[j] == SpecStream(pos - 2 - len(result0) + j))
 //@   ensures crlf: result1 == nil && result0 != nil ==> SpecStream(pos - 2) == '\r' && SpecStream(pos - 1) == '\n'
@@ -131,9 +132,10 @@ func SpecStream(i int) byte { panic("abstract spec function") }
 //@   requires depth: depth >= 0
 //@   modifies d.offset, pos, unread
 //@   ensures offset: result1 == nil ==> d.offset - old(d.offset) == pos - old(pos)
+//@   ensures no_rewind: result1 == nil ==> pos >= old(pos)
 //@   ensures unread_same: unread == old(unread)
 //@   loop 1:
-//@     invariant sync: d.offset - old(d.offset) == pos - old(pos) && unread == old(unread)
+//@     invariant sync: d.offset - old(d.offset) == pos - old(pos) && unread == old(unread) && pos >= old(pos)
 //@     invariant recv: d.r != nil
 
 //@ func Decoder.decodeSingleLineBulkBytesArray
@@ -145,6 +147,7 @@ func SpecStream(i int) byte { panic("abstract spec function") }
 //@   requires nonnil: d != nil && d.r != nil
 //@   modifies d.offset, pos
 //@   ensures offset: result1 == nil ==> d.offset - old(d.offset) == pos - old(pos)
+//@   ensures no_rewind: result1 == nil ==> pos >= old(pos)
 //@   ensures unread_same: unread == old(unread)
 //@   loop 1:
 //@     invariant own_buffer: resp != nil && fresh(resp) && (cap(resp.Value) == 0 || fresh(resp.Value))
@@ -160,8 +163,14 @@ func SpecStream(i int) byte { panic("abstract spec function") }
 //@   requires depth: depth >= 0
 //@   modifies d.offset, pos, unread
 //@   ensures offset: result1 == nil ==> d.offset - old(d.offset) == (pos - old(pos)) + (unread - old(unread))
+//@   ensures grows: result1 == nil ==> d.offset > old(d.offset)
 //@   ensures nested_no_unread: depth != 0 ==> unread == old(unread)
 //@   ensures multibulk_no_unread: result1 == nil && unread != old(unread) ==> depth == 0 && unread == old(unread) + 1
+
+//@ func NewDecoder
+//@   arith int
+//@   properties C12 C07 C01
+//@   ensures fresh_zero: result != nil && fresh(result) && result.offset == 0 && result.r == r
 
 //@ func MustDecodeOpt
 //@   arith int
@@ -172,3 +181,5 @@ func SpecStream(i int) byte { panic("abstract spec function") }
 //@   requires nonnil: d != nil && d.r != nil
 //@   modifies d.offset, pos, unread
 //@   ensures end_offset: result2 == nil ==> result1 == d.offset && result1 - old(d.offset) == (pos - old(pos)) + (unread - old(unread))
+//@   ensures grows: result2 == nil ==> result1 > old(d.offset)
+//@   ensures reader_kept: d.r == old(d.r)
